@@ -259,3 +259,27 @@ def corpus_lines(pid):
                     if ln and not ln.startswith("#"):
                         out.append(ln)
     return out
+
+
+class TooManyFaults(Exception):
+    pass
+
+
+def run_guarded(ctx, exe, lines, what, jobs=14, limit=12, timeout=150, env=core.ASAN_ENV):
+    """core.run_lines_parallel with a bound on the damage a badly broken build can do: every fault
+    restarts the harness (and a hang costs `timeout` seconds), so after `limit` faults in one chunk
+    the stream is abandoned; the faults seen so far are reported as failures by the caller.
+    Returns (outputs or None, faults)."""
+    seen = []
+
+    def on_fault(i, kind, err):
+        seen.append((i, kind, err))
+        if len(seen) >= limit:
+            raise TooManyFaults()
+    try:
+        out, faults = core.run_lines_parallel(exe, lines, jobs=jobs, timeout_per_batch=timeout, env=env, on_fault=on_fault)
+        return out, faults
+    except TooManyFaults:
+        ctx.notes.append("%s: abandoned after %d sanitizer faults / hangs" % (what, len(seen)))
+        # indexes reported by the callback are chunk-relative; keep the kinds and stderr only
+        return None, [(None, k, e) for (_, k, e) in seen]
